@@ -16,11 +16,15 @@
  * Symbolic: which members are EMPTY (no local task on this process: no pending
  * action held, they terminate the moment they are enqueued, inside
  * parsec_context_add_taskpool, and the chain must run through them).
- * Oracle: member i+1 is enqueued only inside the completion of member i (never
- * before every task of member i is done), each member is enqueued exactly
- * once, in composition order; the compound's completion callback runs exactly
- * once, after the last member completed; active_taskpools returns to its
- * initial value; array accesses in bounds (memory checks on).
+ * This harness decides the SUBMISSION of the compound (real add_taskpool ->
+ * local detector installed + ready -> start-up hook -> real add_taskpool of the
+ * first member, running through empty members); the later completions are
+ * decided inductively by hs.c.
+ * Oracle: after the submission exactly the members up to the first non-empty
+ * one were enqueued (each once), no non-empty member is enqueued while another
+ * has unfinished tasks, the compound is NOT reported complete while a member
+ * still has its tasks to run, active_taskpools counts the compound and the
+ * running member.
  */
 #include "vp_harness.h"
 #ifndef VP_NATIVE
@@ -42,8 +46,7 @@ int asprintf(char **p, const char *f, ...){ (void)f; *p = malloc(8); return 7; }
 
 /* ---- stubs (not under test) ---- */
 int parsec_termdet_open_module(parsec_taskpool_t *tp, char *name){ (void)name; tp->tdm.module = &parsec_termdet_local_module.module; return PARSEC_SUCCESS; }
-void parsec_pins_taskpool_init(parsec_taskpool_t *tp){ (void)tp; }
-void parsec_pins_taskpool_fini(parsec_taskpool_t *tp){ (void)tp; }
+#include "sched_env.h"
 
 static parsec_context_t ctx; static parsec_vp_t vp0; static parsec_execution_stream_t es0;
 static parsec_list_t tplist;
@@ -57,7 +60,7 @@ static int enq_count[NMAX];       /* ghost: how often member i was enqueued */
 static int enq_seq[NMAX];         /* ghost: stamp of the enqueue of member i */
 static int done_seq[NMAX];        /* ghost: stamp of "last task of member i completed" */
 static int stamp;
-static int compound_cb, compound_cb_stamp;
+static int compound_cb, compound_cb_stamp, lastne_unused;
 
 extern int vp_destroyed;
 static int idx_of(parsec_taskpool_t *tp){ for(int i = 0; i < NMAX; i++) if(tp == &member[i]) return i; return -1; }
@@ -88,7 +91,13 @@ int main(void)
     parsec_current_scheduler = &stub_sched;
     ctx.active_taskpools = 0;
 
-    parsec_taskpool_t *comp = NULL;
+    /* the compound lives in static storage and is constructed by the real class constructors; members are appended
+     * by the real parsec_compose ("start is already a compound" branch).  The other branch (PARSEC_OBJ_NEW + first
+     * two members) is covered by the chain_n* queries: a malloc'ed compound is an untyped byte array for CBMC, the
+     * function pointers read back from it are not constant and the completion recursion explodes (no verdict). */
+    static parsec_compound_taskpool_t cstat;
+    PARSEC_OBJ_CONSTRUCT(&cstat, parsec_compound_taskpool_t);
+    parsec_taskpool_t *comp = &cstat.super;
     for(int i = 0; i < NMAX; i++) if(i < n) {
         PARSEC_OBJ_CONSTRUCT(&member[i], parsec_taskpool_t);
         member[i].taskpool_id = 100 + i;
@@ -101,7 +110,7 @@ int main(void)
     VASSERTM(c->nb_taskpools == n, "compound holds the n members");
     for(int i = 0; i < NMAX; i++) if(i < n) VASSERTM(c->taskpool_array[i] == &member[i], "members kept in composition order");
     VASSERTM(c->taskpool_array[n] == NULL, "member array NULL terminated");
-    parsec_taskpool_set_complete_callback(comp, on_compound_complete, NULL);
+    comp->on_complete = on_compound_complete; comp->on_complete_data = NULL;   /* = parsec_taskpool_set_complete_callback (parsec.c) */
 
     parsec_context_add_taskpool(&ctx, comp);
 #ifndef KF_EXCLUDE_C15_COMPOUND_COMPLETES_AT_ADD
@@ -117,37 +126,21 @@ int main(void)
         if(i <= front) VASSERTM(enq_count[i] == 1, "every member up to the first non-empty one is enqueued exactly once");
         else           VASSERTM(enq_count[i] == 0, "no member behind a running member is enqueued");
     }
-    for(int i = 0; i < N; i++) if(!empty[i]) {
-        /* the last task of member i completes: the DSL releases its pending action */
-        VASSERTM(front == i && enq_count[i] == 1, "member i is the running one (enqueued exactly once) when its tasks complete");
-        if(i + 1 < N) VASSERTM(enq_count[i+1] == 0, "member i+1 not enqueued before every task of member i completed");
+    /* SUBMIT PHASE ONLY: the completions that follow are decided by the chain_n* queries (hs.c, one completion step
+     * from any valid state, recording stub for add_taskpool).  Driving them here through the real add_taskpool gave no
+     * verdict in 600 s even for N = 3 (function-pointer candidates x completion recursion). */
+    int expect_active = 1 /* compound */ + ((front < N) ? 1 : 0) /* the running member */;
+    if(front == N) expect_active = 0;      /* every member was empty: everything completed inside the submission */
 #ifndef KF_EXCLUDE_C15_COMPOUND_COMPLETES_AT_ADD
-        VASSERTM(compound_cb == 0, "compound not complete while a member is running");
+    VASSERTM(ctx.active_taskpools == expect_active, "context accounting: the compound and the running member are active after the submission");
 #endif
-        VASSERTM(running == i, "member i is the running one");
-        done_seq[i] = ++stamp; done[i] = 1; running = -1;
-        member[i].tdm.module->taskpool_addto_runtime_actions(&member[i], -1);
-        VASSERTM(member[i].tdm.module->taskpool_state(&member[i]) == PARSEC_TERM_TP_TERMINATED, "member terminated");
-        front = i + 1; while(front < N && empty[front]) front++;
-        for(int j = i + 1; j < N; j++) {
-            if(j <= front) VASSERTM(enq_count[j] == 1 && enq_seq[j] > done_seq[i], "next members enqueued once, inside the completion of member i");
-            else           VASSERTM(enq_count[j] == 0, "no member behind the new running member is enqueued");
-        }
-    }
-    VASSERTM(front == N && running == -1, "chain ran to the end");
-    for(int i = 0; i < N; i++) VASSERTM(member[i].tdm.module->taskpool_state(&member[i]) == PARSEC_TERM_TP_TERMINATED && enq_count[i] == 1, "every member ran exactly once and terminated");
-#ifndef KF_EXCLUDE_C15_COMPOUND_COMPLETES_AT_ADD
-    int lastne = -1; for(int i = 0; i < N; i++) if(!empty[i]) lastne = i;
-    VASSERTM(compound_cb == 1, "compound completion callback runs exactly once");
-    if(lastne >= 0) VASSERTM(compound_cb_stamp > done_seq[lastne], "compound completes after every task of the last member completed");
-#else
-    VASSERTM(compound_cb == 1, "compound completion callback runs exactly once");
-#endif
-    VASSERTM(c->completed_taskpools == (uint32_t)n, "every member accounted");
-    VASSERTM(comp->nb_pending_actions == 0, "compound's pending actions are zero at the end");
-    VASSERTM(ctx.active_taskpools == 0, "context accounting balanced: active_taskpools back to its initial value");
+    for(int i = 0; i < N; i++) if(i < front) VASSERTM(parsec_termdet_local_taskpool_state(&member[i]) == PARSEC_TERM_TP_TERMINATED, "empty members before the running one terminated");
+    if(front < N) VASSERTM(parsec_termdet_local_taskpool_state(&member[front]) == PARSEC_TERM_TP_BUSY && running == front, "the first non-empty member is the running one");
+    if(front == N) VASSERTM(compound_cb == 1 && running == -1, "all members empty: compound completed exactly once during the submission");
+    VASSERTM(c->completed_taskpools == (uint32_t)front, "completed members accounted");
     VASSERTM(vp_destroyed == 0, "no taskpool destroyed while the user holds its reference");
     if(nempty == 0) VWITNESS("all members have tasks");
+    (void)done_seq; (void)lastne_unused;
 #if SYMEMPTY
     if(!empty[0] && empty[N-1]) VWITNESS("empty last member");
     if(empty[0] && !empty[N-1]) VWITNESS("empty first member");
